@@ -1876,3 +1876,93 @@ func preSignAdditionsAreInTheView(c *Ctx, r *Report, rule string) {
 	r.Floor(rule, "entry fields PreSign writes into", len(fields), 1)
 	r.Floor(rule, "returns of Normalize", nRet, 2)
 }
+
+// oneRequestPerHash: a function asks the block store for a given hash once. A second request for the same
+// hash — a retry after a failure, or the request sitting in a loop that does not change the hash — doubles
+// the waiting for a block that is slow or absent and shows the store the same hash twice.
+func oneRequestPerHash(c *Ctx, r *Report, rule string) {
+	p := c.P
+	isCid := func(t types.Type) bool { return t != nil && isNamed(t, "github.com/ipfs/go-cid", "Cid") }
+	request := func(fn *Fn, call *ast.CallExpr) types.Object {
+		cf := p.Callee(fn, call)
+		if cf == nil || cf.Pkg() == nil || p.firstParty(cf.Pkg()) || !strings.Contains(cf.Pkg().Path(), ".") {
+			return nil
+		}
+		if cf.Name() != "Get" && cf.Name() != "GetBlock" {
+			return nil
+		}
+		if cf.Type().(*types.Signature).Recv() == nil {
+			return nil
+		}
+		for _, a := range call.Args {
+			if id, ok := ast.Unparen(a).(*ast.Ident); ok && isCid(p.TypeOf(fn, id)) {
+				return p.ObjOf(fn, id)
+			}
+		}
+		return nil
+	}
+	n := 0
+	for _, fn := range p.Fns {
+		if fn.Body == nil {
+			continue
+		}
+		fn := fn
+		has := false
+		walkNoLit(fn.Body, func(nd ast.Node) bool {
+			if call, ok := nd.(*ast.CallExpr); ok && request(fn, call) != nil {
+				has = true
+			}
+			return true
+		})
+		if !has {
+			continue
+		}
+		fl := &Flow{P: p, Fn: fn, May: true, Entry: Facts{}}
+		fl.Node = func(nd ast.Node, f Facts) {
+			walkNoLit(nd, func(m ast.Node) bool {
+				switch x := m.(type) {
+				case *ast.CallExpr:
+					if o := request(fn, x); o != nil {
+						f["asked|"+p.ID(o)] = true
+					}
+				case *ast.AssignStmt:
+					for _, l := range x.Lhs {
+						if id, ok := ast.Unparen(l).(*ast.Ident); ok {
+							if o := p.ObjOf(fn, id); o != nil {
+								delete(f, "asked|"+p.ID(o))
+							}
+						}
+					}
+				case *ast.RangeStmt:
+					for _, l := range []ast.Expr{x.Key, x.Value} {
+						if id, ok := l.(*ast.Ident); ok {
+							if o := p.ObjOf(fn, id); o != nil {
+								delete(f, "asked|"+p.ID(o))
+							}
+						}
+					}
+				}
+				return true
+			})
+		}
+		fl.Run()
+		fl.Visit(func(_ *cfgBlk, nd ast.Node, before Facts) {
+			walkNoLit(nd, func(m ast.Node) bool {
+				call, ok := m.(*ast.CallExpr)
+				if !ok {
+					return true
+				}
+				o := request(fn, call)
+				if o == nil {
+					return true
+				}
+				n++
+				r.Check(!before["asked|"+p.ID(o)], rule, r.Key(rule, fn, "one-request", o.Name()), call.Pos(),
+					"the store is asked for "+o.Name()+" here and on no path before",
+					fmt.Sprintf("%s asks the store for %s at %s on a path on which it has already asked for it: the same hash is requested twice, and a slow or absent block is waited for twice", fn.Name, o.Name(), p.Pos(call.Pos())))
+				return true
+			})
+		})
+	}
+	r.Floor(rule, "requests to the block store", n, 2)
+}
